@@ -855,6 +855,10 @@ func parseEnhancedCode(s string) (EnhancedCode, error) {
 
 	code := EnhancedCode{}
 	for i, part := range parts {
+		// Digits only (RFC 3463): strconv.Atoi alone would take a sign too.
+		if part == "" || strings.Trim(part, "0123456789") != "" {
+			return code, fmt.Errorf("enhanced code part %q is not a number", part)
+		}
 		num, err := strconv.Atoi(part)
 		if err != nil {
 			return code, err
